@@ -453,6 +453,9 @@ func c20ExecBytes(ctx *vk.Ctx, c c20BytCase) error {
 				if c20HasOverlongLen(in, 0) && ctx.Known(c20KnownOverlong) {
 					return nil
 				}
+				if c20HasOverlongLen(in, 0) && strings.Contains(err.Error(), "nil vs non-nil pointer") && ctx.Known(c20KnownOverlongNil) {
+					return nil
+				}
 				return fmt.Errorf("both decoders accept %x but return different values: %v", in, err)
 			}
 		}
@@ -569,6 +572,9 @@ func c20ExecAnyBytes(ctx *vk.Ctx, w *c20World, t *c20Type, c c20BytCase, in []by
 		if c20HasOverlongLen(in, 0) && ctx.Known(c20KnownOverlong) {
 			return nil
 		}
+		if c20HasOverlongLen(in, 0) && strings.Contains(err.Error(), "nil vs non-nil pointer") && ctx.Known(c20KnownOverlongNil) {
+			return nil
+		}
 		return fmt.Errorf("both Any decoders accept %x but return different values: %v", in, err)
 	}
 	if v1.Elem().IsNil() {
@@ -626,6 +632,13 @@ func c20IsHexOverflow(p string) bool {
 // bytes are left, so input that ends right after the key of a []byte field is
 // accepted by the reflect decoder; the generated decoder reports "buffer too
 // small".
+// c20KnownOverlongNil: in a list tagged amino:"nil_elements" (Commit.Precommits)
+// the reflect decoder recognises a nil element only by the single byte 0x00
+// (binary_decode.go: bz[0] == 0x00), so a zero length written non-minimally
+// (80 00) yields a non-nil pointer to an empty struct, while the generated
+// decoder yields nil.
+const c20KnownOverlongNil = "reflect-overlong-zero-length-element-is-not-nil"
+
 const c20KnownBareKey = "reflect-accepts-bytes-field-key-without-length"
 
 // c20IsEmptyReprErr: the error some UnmarshalAmino returns for the empty repr.
